@@ -266,6 +266,43 @@ def relations(rng, tier, rpt):
     seeds = [bytes(32), bytes(3)]
     s0 = list(seeds)
     SplToken.FindPda(seeds, "ATokenGPvbdGVxr1b2hvZbsiqW5xWH25efTNsLJA8knL")
+    # (c') a caller-supplied PATH OBJECT is an input too: after a call that failed part-way through it (a hardened element on a public-only
+    #      object), or after a partial iteration by the caller, the same object still denotes the same path — for Bip32Path and SubstratePath
+    import bip_utils as _BU
+    pobj = _BU.Bip32PathParser.Parse("m/0'/1'/2")
+    p_list = pobj.ToList()
+    m_priv = _BU.Bip32Slip10Secp256k1.FromSeed(bytes(range(16)))
+    m_pub = _BU.Bip32Slip10Secp256k1.FromSeed(bytes(range(16)))
+    m_pub.ConvertToPublic()
+    want_po = m_priv.DerivePath("m/0'/1'/2").PublicKey().RawCompressed().ToHex()
+    for r_ in range(2):
+        try:
+            m_pub.DerivePath(pobj)
+        except Exception:  # noqa  (refused at the first hardened element)
+            pass
+        it_ = iter(pobj)
+        next(it_)                      # the caller looks at the first element only
+        got_po = _BU.Bip32Slip10Secp256k1.FromSeed(bytes(range(16))).DerivePath(pobj).PublicKey().RawCompressed().ToHex()
+        if got_po != want_po or pobj.ToList() != p_list or [int(e) for e in pobj] != p_list or pobj.Length() != 3:
+            rep("a Bip32Path object re-used after a call that failed part-way (and a partial iteration) no longer denotes the same path",
+                "m/0'/1'/2 round %d" % r_, "%s list=%s iter=%s" % (got_po, pobj.ToList(), [int(e) for e in pobj]), "%s list=%s" % (want_po, p_list))
+            break
+    sp_obj = _BU.SubstratePathParser.Parse("/soft//hard/x")
+    sp_txt = sp_obj.ToStr()
+    s_pub = _BU.Substrate.FromSeed(bytes(range(32)), _BU.SubstrateCoins.POLKADOT)
+    s_pub.ConvertToPublic()
+    want_sp = _BU.Substrate.FromSeed(bytes(range(32)), _BU.SubstrateCoins.POLKADOT).DerivePath("/soft//hard/x").PublicKey().RawCompressed().ToHex()
+    for r_ in range(2):
+        try:
+            s_pub.DerivePath(sp_obj)
+        except Exception:  # noqa
+            pass
+        next(iter(sp_obj))
+        got_sp = _BU.Substrate.FromSeed(bytes(range(32)), _BU.SubstrateCoins.POLKADOT).DerivePath(sp_obj).PublicKey().RawCompressed().ToHex()
+        if got_sp != want_sp or sp_obj.ToStr() != sp_txt or "".join(e.ToStr() for e in sp_obj) != sp_txt:
+            rep("a SubstratePath object re-used after a call that failed part-way no longer denotes the same path", sp_txt,
+                "%s %s" % (got_sp, sp_obj.ToStr()), "%s %s" % (want_sp, sp_txt))
+            break
     # (d) parent objects are not mutated by deriving children (every wrapper with a derivation method): observable state before == after,
     #     and a child derived after its siblings equals the child derived first
     from bip_utils import (Substrate, SubstrateCoins, Bip32Slip10Secp256k1, Bip32KholawEd25519, Bip44, Bip44Coins, Cip1852, Cip1852Coins, CardanoShelley, Monero,
